@@ -1,5 +1,6 @@
 import MgpuProofs.Props.C15
 import MgpuProofs.C15Refine
+import MgpuProofs.C15Flush
 /-! # C15 — refinement of the abstract FIFO specification, flush semantics, forwarded fields
 
 Statements about the **closed system** `C15.sysRun c evs` (`MgpuModel/C15_Sys.lean`): the tick-exact
@@ -190,5 +191,147 @@ theorem forwarded_flag_cleared (c : Cfg) (evs : List Ev) :
 
 example : ((sysRun demoCfg demoEvs).rob.fwd.map (·.1.cwc)) = [true, true, true, true, true] ∧
     ((sysRun demoCfg demoEvs).rob.fwd.map (·.2.cwc)) = [false, false, false, false, false] := by decide
+
+/-! ## Flush / restart -/
+
+/-- **Empty while flushing.** From the acknowledgement of a flush until a restart is processed
+    the transaction list and the lookup table are empty, and a tick that ends in the flushing
+    state moves no message: nothing is sent up, nothing is forwarded, no lower-level response is
+    consumed (only the control port is served). -/
+theorem flushing_is_empty_and_silent (c : Cfg) (evs : List Ev) :
+    let s := (sysRun c evs).rob
+    (s.flushing = true → s.txs = [] ∧ s.table = []) ∧
+    ((tick c s).1.flushing = true → (tick c s).1.traffic = s.traffic) := by
+  intro s
+  refine ⟨fun hf => ?_, tick_flushing_silent c s⟩
+  have h := sysRun_ok c evs
+  have ht := h.flushEmpty hf
+  exact ⟨ht, by rw [h.inv.table, ht]; rfl⟩
+
+example : (sysRun demoCfg (demoEvs.take 22)).rob.flushing = true ∧
+    (sysRun demoCfg (demoEvs.take 21)).rob.txs.length = 2 ∧
+    (sysRun demoCfg (demoEvs.take 22)).rob.txs = [] := by decide
+
+/-- **Discarded requests stay silent; late answers are dropped** (closed-system form of
+    `flush_discards`): an id thrown away by a flush / restart is never among the responses the
+    requester takes or that wait in the Top port, in any continuation, and the ticket of a discarded
+    transaction never matches a table entry again — the lower level's late answer is consumed by
+    `parseBottom` and dropped. -/
+theorem sys_flush_discards (c : Cfg) (evs more : List Ev) :
+    (∀ a ∈ (sysRun c evs).rob.discarded,
+        a ∉ ((sysRun c (evs ++ more)).out ++ (sysRun c (evs ++ more)).rob.topOut).map (·.rspTo)) ∧
+    (∀ b ∈ (sysRun c evs).rob.discardedBot, b ∉ (sysRun c (evs ++ more)).rob.table) := by
+  obtain ⟨ops, later, h1, h2⟩ := closed_system_is_a_run c evs more
+  have := flush_discards c ops later
+  rw [← h1, ← h2] at this
+  rw [← (sysRun_ok c (evs ++ more)).outLog]
+  exact this
+
+example : (sysRun demoCfg (demoEvs.take 22)).rob.discardedBot = [2, 3] ∧
+    (sysRun demoCfg (demoEvs.take 26)).rob.botIn = [(2, .data [5])] ∧
+    (sysRun demoCfg (demoEvs.take 28)).rob.botIn = [] ∧
+    (sysRun demoCfg demoEvs).out.map (·.rspTo) = [0, 1, 4] := by decide
+
+/-- **Later traffic is served normally.** From any point at which the buffer is empty — in
+    particular right after a flush or a restart was processed (`flush_empties`,
+    `flushing_is_empty_and_silent`) — and for every continuation: the responses that enter the
+    Top port from then on, followed by the pending ids, are exactly the requests accepted from
+    then on (minus those a later flush throws away), in acceptance order. -/
+theorem served_in_order_after_restart (c : Cfg) (evs more : List Ev)
+    (hempty : (sysRun c evs).rob.txs = []) :
+    let s := (sysRun c evs).rob
+    let s' := (sysRun c (evs ++ more)).rob
+    ∃ newOut newFwd, s'.delivered = s.delivered ++ newOut ∧ s'.fwd = s.fwd ++ newFwd ∧
+      newOut.map (·.rspTo) ++ s'.txs.map (·.req.id) =
+        (newFwd.map (·.1.id)).filter (fun a => decide (a ∉ s'.discarded)) := by
+  intro s s'
+  obtain ⟨r1, r2, _⟩ := rob_refines_fifo c evs more
+  have g := spec_good c.cap s.abs r1
+  have := Spec.after_empty_in_order g (by simp [St.abs, s, hempty]) r2
+  obtain ⟨no, nf, h1, h2, h3⟩ := this
+  refine ⟨no, nf, h1, h2, ?_⟩
+  simp only [St.abs, List.map_map, Function.comp_def] at h3
+  exact h3
+
+example : (sysRun demoCfg (demoEvs.take 25)).rob.txs = [] ∧
+    (sysRun demoCfg (demoEvs.take 25)).rob.flushing = false ∧
+    (sysRun demoCfg demoEvs).rob.delivered.map (·.rspTo) = [0, 1, 4] ∧
+    (sysRun demoCfg demoEvs).rob.fwd.map (·.1.id) = [0, 1, 2, 3, 4] := by decide
+
+/-- the stronger reading "once a flush is acknowledged, no response to a request accepted before
+    the flush leaves through the Top port any more" -/
+def flush_silences_top_full : Prop :=
+  ∀ (c : Cfg) (evs more : List Ev), (sysRun c evs).rob.flushing = true →
+    ∀ d ∈ (sysRun c (evs ++ more)).out.drop (sysRun c evs).out.length,
+      d.rspTo ∉ (sysRun c evs).rob.accepted
+
+/-- a request answered and retired into the Top port's outgoing buffer before the flush; the
+    requester takes the response after the acknowledgement -/
+def residueEvs : List Ev :=
+  [.arrive (demoReq 0 false), .tick, .memTake, .memAnswer 0 (.data [9, 9, 9, 9]), .tick, .tick,
+   .ctl ⟨true, false⟩, .tick]
+
+/-- It is false: the flush does not clear the Top port's outgoing buffer, so a response retired
+    before the flush is still handed to the requester after the acknowledgement (replayed on the
+    real ROB by `harness/c15_deep.go`). Such a request was *not* discarded — the property's flush
+    clause (discarded requests are never answered) is not affected. -/
+theorem flush_silences_top_refuted : ¬ flush_silences_top_full := by
+  intro h
+  have := h demoCfg residueEvs [.takeRsp] (by decide)
+  revert this
+  decide
+
+/-- **…and that is all that trails out.** From a point where the buffer is empty (any point in
+    the flushing state): whatever the requester takes later that answers a request accepted before
+    that point was already waiting in the Top port's outgoing buffer at that point (so at most
+    `topOutCap` such responses, all retired before the flush); every other later response answers
+    a request accepted afterwards. -/
+theorem flush_top_residue_partial (c : Cfg) (evs more : List Ev) (hempty : (sysRun c evs).rob.txs = []) :
+    ∃ taken, (sysRun c (evs ++ more)).out = (sysRun c evs).out ++ taken ∧
+      ∀ d ∈ taken, d.rspTo ∈ (sysRun c evs).rob.accepted → d ∈ (sysRun c evs).rob.topOut := by
+  have hrun : sysRun c (evs ++ more) = more.foldl (sysStep c) (sysRun c evs) := by
+    simp [sysRun, List.foldl_append]
+  obtain ⟨taken, ht⟩ := sysFold_out c more (sysRun c evs)
+  rw [← hrun] at ht
+  refine ⟨taken, ht, ?_⟩
+  intro d hd hacc
+  have ok := sysRun_ok c evs
+  have ok' := sysRun_ok c (evs ++ more)
+  obtain ⟨no, nf, h1, _, _⟩ := served_in_order_after_restart c evs more hempty
+  -- taken ++ topOut' = topOut ++ newOut
+  have e : taken ++ (sysRun c (evs ++ more)).rob.topOut = (sysRun c evs).rob.topOut ++ no := by
+    have := ok'.outLog
+    rw [h1, ok.outLog, ht, List.append_assoc, List.append_assoc] at this
+    exact (List.append_cancel_left this).symm
+  have hmem : d ∈ (sysRun c evs).rob.topOut ++ no := by
+    rw [← e]; exact List.mem_append_left _ hd
+  rcases List.mem_append.1 hmem with hm | hm
+  · exact hm
+  · exfalso
+    obtain ⟨ho', _, hn', _⟩ := sys_order_once_capacity c (evs ++ more)
+    obtain ⟨ho, _, _, _⟩ := sys_order_once_capacity c evs
+    rw [hempty] at ho
+    simp only [List.map_nil, List.append_nil] at ho
+    -- the id is not discarded later, hence not discarded now, hence already delivered now
+    have hin' : d.rspTo ∈ (sysRun c (evs ++ more)).rob.live := by
+      rw [← ho', h1]
+      exact List.mem_append_left _ (List.mem_map.2 ⟨d, List.mem_append_right _ hm, rfl⟩)
+    have hnd' : d.rspTo ∉ (sysRun c (evs ++ more)).rob.discarded := by
+      have := (List.mem_filter.1 hin').2; simpa using this
+    have hnd : d.rspTo ∉ (sysRun c evs).rob.discarded := by
+      intro hx
+      exact (sys_flush_discards c evs more).1 _ hx (by
+        rw [← ok'.outLog, h1]
+        exact List.mem_map.2 ⟨d, List.mem_append_right _ hm, rfl⟩)
+    have hdel : d.rspTo ∈ (sysRun c evs).rob.delivered.map (·.rspTo) := by
+      rw [ho]; exact List.mem_filter.2 ⟨hacc, by simpa using hnd⟩
+    have hnod : ((sysRun c evs).rob.delivered.map (·.rspTo) ++ no.map (·.rspTo)).Nodup := by
+      have := (List.nodup_append.1 hn').1
+      rw [h1, List.map_append] at this
+      exact this
+    exact (List.nodup_append.1 hnod).2.2 _ hdel _ (List.mem_map.2 ⟨d, hm, rfl⟩) rfl
+
+example : (sysRun demoCfg residueEvs).rob.txs = [] ∧ (sysRun demoCfg residueEvs).rob.topOut.length = 1 ∧
+    (sysRun demoCfg (residueEvs ++ [.takeRsp])).out.map (·.rspTo) = [0] := by decide
 
 end C15
